@@ -2,6 +2,7 @@ package props
 
 import (
 	"fmt"
+	"math"
 
 	clip "github.com/bolom009/go-clipper2"
 
@@ -32,7 +33,7 @@ func init() {
 		ID: "C01",
 		Rule: "case = (family,index,stream) -> closed subject+clip sets; each case is executed for all 4 clip types x 4 fill rules on a fresh engine " +
 			"and the returned region (winding != 0) is compared with the exact boolean combination of fill(winding(subject)), fill(winding(clip)) at integer sample points " +
-			"more than 2 units (+margin) from every input edge. Pool families (stream 0) are a closed, seed-windowed set; other families are generated fresh from VERIF_SEED. " +
+			"more than 2 units (+margin) from every input edge; in addition the solution's exact signed area is compared with the area of the expected region computed from a slab decomposition of the input edges (difference must not exceed the area of the 2-unit band, 4*L + 4*pi*V). Pool families (stream 0) are a closed, seed-windowed set; other families are generated fresh from VERIF_SEED. " +
 			"A case is non-trivial when its Union/NonZero execution processed >= 3 edge intersections (hook counter) and >= 1 eligible sample point existed; distinct = distinct input digests.",
 		Assumptions: []string{
 			"oracle: exact winding numbers by 128-bit integer cross products; eligibility by float64 distance with a conservative margin (points are only ever excluded, never wrongly included)",
@@ -85,6 +86,10 @@ func c01Run(ctx *run.Ctx, id run.CaseID) {
 	probe := buildProbe(candidates(r, nUni, subj, clp), subj, clp, edges, 2)
 	ctx.Count("eligible_points", int64(len(probe.pts)))
 	nontrivial := false
+	// exact-area oracle: the arrangement of the input edges, once per case. The solution may differ from the exact
+	// region only inside the 2-unit band around the input edges, whose area is at most 4*L + 4*pi*V.
+	cells, cellsOK := oracle.Decompose(subj, clp, 400)
+	bandArea := 4*edgeLen(subj, clp) + 13*float64(gen.NumVerts(subj, clp)) + 4
 	for _, ct := range clipTypes {
 		for _, fr := range fillRules {
 			var sol Paths
@@ -104,6 +109,28 @@ func c01Run(ctx *run.Ctx, id run.CaseID) {
 			if !okExec {
 				ctx.Fail(digest, "execute-false/"+ctName(ct)+"/"+frName(fr), "", "Execute returned false", in)
 				continue
+			}
+			if cellsOK {
+				want := 0.0
+				for _, c := range cells {
+					if oracle.BoolOp(ct, oracle.Fill(fr, c.WS), oracle.Fill(fr, c.WC)) {
+						want += c.Area
+					}
+				}
+				got := oracle.Area2Paths(sol).Float() / 2
+				ctx.Count("areas_compared", 1)
+				if d := math.Abs(got - want); d > bandArea+1e-7*want {
+					// attribution to the join / repair events of this execution, by area
+					class := ""
+					ta := 0.0
+					for _, t := range discardEvents(subj, clp, ct, fr) {
+						ta += t.area
+					}
+					if ta > 0 && d <= bandArea+1e-7*want+ta*1.0001 {
+						class = "repair-discarded-loop"
+					}
+					ctx.Fail(digest, "area/"+ctName(ct)+"/"+frName(fr), class, fmt.Sprintf("solution area %.1f, exact area of the expected region %.1f, difference %.1f > area of the 2-unit band %.1f; solution=%v", got, want, d, bandArea, sol), in)
+				}
 			}
 			// extra probes near output vertices
 			extra := buildProbe(nearPts(r, sol, 24), subj, clp, edges, 2)
